@@ -80,22 +80,23 @@ func (h *harnessState) close() {
 
 // treeCase is one receiving tree over one receiver ACL.
 type treeCase struct {
-	h         *harnessState
-	r         *corr.Run
-	w         *world
-	recvK     int
-	recvKeys  *accountdata.AccountKeys
-	recv      list.AclList
-	rootId    string
-	store     objecttree.Storage
-	tree      objecttree.ObjectTree
-	builder   objecttree.ChangeBuilder
-	attached  map[string]*parsed // what the oracle knows to be attached (authentic versions)
-	resync    bool               // outside the model (rebuild path, snapshot / reduce, empty previous ids, key filter): oracle only from here on
-	keyFilter bool               // tree built with BuildKeyFilterableObjectTree
-	keyIds    []string           // read key ids the receiver can decrypt
-	exotic    bool               // generate snapshot changes and changes without previous ids
-	ops       []string           // model lines sent so far (replay)
+	h          *harnessState
+	r          *corr.Run
+	w          *world
+	recvK      int
+	recvKeys   *accountdata.AccountKeys
+	recv       list.AclList
+	rootId     string
+	store      objecttree.Storage
+	tree       objecttree.ObjectTree
+	builder    objecttree.ChangeBuilder
+	attached   map[string]*parsed // what the oracle knows to be attached (authentic versions)
+	resync     bool               // outside the model (rebuild path, snapshot / reduce, empty previous ids, key filter): oracle only from here on
+	keyFilter  bool               // tree built with BuildKeyFilterableObjectTree
+	lastStatus string
+	keyIds     []string // read key ids the receiver can decrypt
+	exotic     bool     // generate snapshot changes and changes without previous ids
+	ops        []string // model lines sent so far (replay)
 }
 
 // check records a model/implementation disagreement; after a few of them only counts, so that the
@@ -113,6 +114,9 @@ func (tc *treeCase) check(stream, model, impl string) {
 }
 
 func (tc *treeCase) violate(stream, desc string) {
+	if tc.lastStatus != "" {
+		desc += " {" + tc.lastStatus + "}"
+	}
 	tc.r.Violate("C02", "", stream, desc, append([]string{"# acl history: " + strings.Join(tc.w.cmds, " ; ")}, tc.ops...))
 }
 
@@ -278,6 +282,24 @@ func (tc *treeCase) observe() obs {
 	return o
 }
 
+// diff names what differs between two observations (interned ids)
+func (o obs) diff(tc *treeCase, p obs) string {
+	var d []string
+	if strings.Join(o.heads, ",") != strings.Join(p.heads, ",") {
+		d = append(d, fmt.Sprintf("heads %s -> %s", orderedNums(tc, o.heads), orderedNums(tc, p.heads)))
+	}
+	if strings.Join(o.iter, ",") != strings.Join(p.iter, ",") {
+		d = append(d, fmt.Sprintf("iteration %s -> %s", orderedNums(tc, o.iter), orderedNums(tc, p.iter)))
+	}
+	if o.stDump != p.stDump {
+		d = append(d, fmt.Sprintf("storage %s -> %s", orderedNums(tc, o.stIds), orderedNums(tc, p.stIds)))
+	}
+	if strings.Join(o.stHead, ",") != strings.Join(p.stHead, ",") {
+		d = append(d, fmt.Sprintf("stored heads %s -> %s", orderedNums(tc, o.stHead), orderedNums(tc, p.stHead)))
+	}
+	return strings.Join(d, "; ")
+}
+
 func (o obs) exact() string {
 	return strings.Join(o.heads, ",") + "#" + strings.Join(o.iter, ",") + "#" + o.stDump + "#" + strings.Join(o.stHead, ",")
 }
@@ -375,7 +397,18 @@ func (tc *treeCase) checkNew(stream string, before, after obs, delivered []*pars
 			continue
 		}
 		if ok, why := tc.authentic(c, env); !ok {
-			tc.violate(stream, fmt.Sprintf("change %d (%s) was attached/persisted although %s", tc.chNum(id), c.label, why))
+			where := ""
+			for _, x := range after.iter {
+				if x == id {
+					where += " [in IterateRoot]"
+				}
+			}
+			for _, x := range after.stIds {
+				if x == id {
+					where += " [in storage]"
+				}
+			}
+			tc.violate(stream, fmt.Sprintf("change %d (%s) was attached/persisted%s although %s", tc.chNum(id), c.label, where, why))
 			continue
 		}
 		tc.attached[id] = c
@@ -526,10 +559,11 @@ func (tc *treeCase) add(batch []*rawCh, tag string) string {
 		tc.r.Count(fmt.Sprintf("add.exotic.%s.added=%d", strings.SplitN(status, ":", 2)[0], min(len(added), 2)))
 	}
 	// oracle 1: only authentic changes become attached / persisted
+	tc.lastStatus = fmt.Sprintf("status=%s added=%s heads=%s", status, orderedNums(tc, added), sortedNums(tc, after.heads))
 	tc.checkNew("auth.add.oracle", before, after, ps)
 	// oracle 2: a rejected batch is a no-op on heads, iteration order, storage
 	if err != nil && before.exact() != after.exact() {
-		tc.violate("auth.add.noop", "a rejected batch ("+status+") changed heads / iteration / storage")
+		tc.violate("auth.add.noop", "a rejected batch ("+status+") changed "+before.diff(tc, after))
 	}
 	// oracle 3 (consistency of the reply): on success the reported additions are what became attached and stored
 	if err == nil {
